@@ -377,7 +377,7 @@ cdef class CJokerHelper:
         # B = C + M @ Λ @ M.T
         # b = M @ µ
 
-        info = self.make_AAinv()
+        info = self.make_AAinv() if make_aAinv == 1 else 0
         if info < 0:
             return INF
 
